@@ -11,6 +11,7 @@ import LithiumModel.SplitAttrs
 import LithiumModel.Cmdline
 import Generated.CmdlineTable
 import LithiumModel.PairsMove
+import LithiumModel.Alias
 import LithiumModel.JsSpec
 import LithiumModel.Rewrite
 import LithiumModel.Interest
@@ -52,6 +53,28 @@ def cmdRmslice (p r a b : String) : String :=
     | some t' => s!"ok {encList t'.parts} {encBools t'.reducible} {t'.len}"
     | none => "indexerror"
   | _, _, _, _ => "bad-op"
+
+/-- `alias <parts> <flags> <ops>`: ops separated by `;`: `c:o`, `r:o:a:b`, `f:o:i:v`, `p:o:i:hex`.  Output per object
+`parts flags`, then for every object the first object holding the same parts list / the same flag list. -/
+def cmdAlias (p r ops : String) : String :=
+  match decList p, decBools r with
+  | some p, some r =>
+    let decOp (s : String) : Option Alias.Op :=
+      match s.splitOn ":" with
+      | ["c", o] => o.toNat?.map .copy
+      | ["r", o, a, b] => do pure (.rmslice (← o.toNat?) (← decOptInt a) (← decOptInt b))
+      | ["f", o, i, v] => do pure (.setFlag (← o.toNat?) (← i.toNat?) (v == "1"))
+      | ["p", o, i, v] => do pure (.setPart (← o.toNat?) (← i.toNat?) (← decBytes v))
+      | _ => none
+    match (if ops == "." then some [] else (ops.splitOn ";").mapM decOp) with
+    | some ops =>
+      let h := Alias.run (Alias.init p r) ops
+      let views := h.objs.map (fun ob => s!"{encList (h.parts ob.p)} {encBools (h.flags ob.r)}")
+      let firstP := h.objs.map (fun ob => toString (h.objs.findIdx (fun x => x.p == ob.p)))
+      let firstR := h.objs.map (fun ob => toString (h.objs.findIdx (fun x => x.r == ob.r)))
+      "|".intercalate views ++ " P=" ++ ",".intercalate firstP ++ " R=" ++ ",".intercalate firstR
+    | none => "bad-op"
+  | _, _ => "bad-op"
 
 /-! ### driver world -/
 
@@ -347,6 +370,7 @@ def step (line : String) : String :=
     | some d => ",".intercalate ((Js.strChars d).map (fun x => s!"{x.1}:{x.2.length}")) ++ "."
     | none => "bad-op"
   | ["rmslice", p, r, a, b] => cmdRmslice p r a b
+  | ["alias", p, r, ops] => cmdAlias p r ops
   | ["world", b, p, r, a, disk, runs] => cmdWorld b p r a disk runs
   | ["strategy", name, cfg, b, p, r, a, verdicts, clock] => cmdStrategy name cfg b p r a verdicts clock
   | ["summary", name, cfg, b, p, r, a, verdicts, clock] => cmdSummary name cfg b p r a verdicts clock
